@@ -80,6 +80,7 @@ sorted_view_(nullptr)
 template<typename T, typename C, typename A>
 req_sketch<T, C, A>& req_sketch<T, C, A>::operator=(const req_sketch& other) {
   req_sketch copy(other);
+  reset_sorted_view(); // release the cached view with the allocator that made it, before allocator_ changes
   std::swap(comparator_, copy.comparator_);
   std::swap(allocator_, copy.allocator_);
   std::swap(k_, copy.k_);
@@ -96,6 +97,9 @@ req_sketch<T, C, A>& req_sketch<T, C, A>::operator=(const req_sketch& other) {
 
 template<typename T, typename C, typename A>
 req_sketch<T, C, A>& req_sketch<T, C, A>::operator=(req_sketch&& other) {
+  // the cached views do not travel: release each with the allocator that made it, before the allocators are swapped
+  reset_sorted_view();
+  other.reset_sorted_view();
   std::swap(comparator_, other.comparator_);
   std::swap(allocator_, other.allocator_);
   std::swap(k_, other.k_);
